@@ -6,11 +6,15 @@ sys.path.insert(0, os.path.join(HERE, "lib")); sys.path.insert(0, os.path.join(H
 ids = [json.loads(l)["id"] for l in open(os.path.join(HERE, "properties.jsonl"))]
 checks, na = [], []
 NA_REASON = {}
+CLAIMED = set(open(os.path.join(HERE, "lib", "claimed.txt")).read().split())
 for pid in ids:
-    if not os.path.exists(os.path.join(HERE, "props", pid + ".py")):
+    if pid not in CLAIMED or not os.path.exists(os.path.join(HERE, "props", pid + ".py")):
         na.append({"property_id": pid, "reason": NA_REASON.get(pid, "check under construction in this round (harness not yet committed); nothing is claimed for it")})
         continue
     m = importlib.import_module(pid)
+    if len(m.queries("quick")) < 2:
+        na.append({"property_id": pid, "reason": NA_REASON.get(pid, "check under construction in this round (no queries committed yet); nothing is claimed for it")})
+        continue
     M = getattr(m, "MANIFEST", {})
     checks.append({
         "property_id": pid,
